@@ -53,6 +53,8 @@ type schedTask struct {
 	adopted bool   // a goroutine of the store itself (e.g. the flusher)
 	hits    map[string]int
 	steps   int
+	// finished is closed when a spawned task's function has returned.
+	finished chan struct{}
 }
 
 type schedEvent struct {
@@ -145,7 +147,7 @@ func (s *scheduler) atPoint(name string) {
 
 // spawn starts a task running fn. The task parks before its first step.
 func (s *scheduler) spawn(name string, fn func(yield func(point string))) *schedTask {
-	t := &schedTask{id: -1, name: name, resume: make(chan struct{}, 1), hits: map[string]int{}, state: tsRunning}
+	t := &schedTask{id: -1, name: name, resume: make(chan struct{}, 1), hits: map[string]int{}, state: tsRunning, finished: make(chan struct{})}
 	s.mu.Lock()
 	t.id = len(s.tasks)
 	s.tasks = append(s.tasks, t)
@@ -164,7 +166,10 @@ func (s *scheduler) spawn(name string, fn func(yield func(point string))) *sched
 			s.park(t, schedEvent{t: t, point: point})
 		}
 		yield("task.start")
-		fn(yield)
+		func() {
+			defer close(t.finished)
+			fn(yield)
+		}()
 		done := schedEvent{t: t, done: true}
 		select {
 		case s.events <- done:
@@ -318,6 +323,27 @@ func (s *scheduler) release() {
 			}
 		}
 	}()
+}
+
+// join waits until the function of every spawned task has returned (call it
+// after release: run gives up on tasks that stay silent for long, and they
+// may still be inside a store call). It returns false when d passes first.
+func (s *scheduler) join(d time.Duration) bool {
+	s.mu.Lock()
+	all := append([]*schedTask{}, s.tasks...)
+	s.mu.Unlock()
+	timeout := time.After(d)
+	for _, t := range all {
+		if t.adopted || t.finished == nil {
+			continue
+		}
+		select {
+		case <-t.finished:
+		case <-timeout:
+			return false
+		}
+	}
+	return true
 }
 
 // ---------------------------------------------------------------------------
